@@ -89,7 +89,7 @@ Definition is_nil {A} (l : list A) : bool := match l with [] => true | _ => fals
 (* ------------------------------------------------------------------------------------------ *)
 (* identity provider                                                                          *)
 
-Inductive pkind := Google | Okta.
+Inductive pkind := Google | Okta | Cognito.
 (* a request the IdP received, with the credential it was asked about *)
 Inductive idp_call :=
 | CallRefresh (rtok : str)      (* token endpoint, grant_type=refresh_token, refresh_token=rtok *)
@@ -116,7 +116,7 @@ Definition okta_revoked_text : str :=
    ASCII in every case the harness sends, so ASCII folding is strings.ToLower) *)
 Definition revoked_text (p : pkind) (desc : str) : bool :=
   match p with
-  | Google => str_eqb desc google_revoked_text
+  | Google | Cognito => str_eqb desc google_revoked_text       (* amazon_cognito.go:222-229: same text *)
   | Okta => contains (lower_ascii desc) okta_revoked_text
   end.
 
@@ -168,7 +168,12 @@ Inductive validate_reply := VReset | VStatus (st : N) (json_ok active : bool).
 Definition idp_validates (p : pkind) (v : validate_reply) : bool :=
   match v with
   | VReset => false
-  | VStatus st j a => N.eqb st 200 && match p with Google => true | Okta => j && a end
+  | VStatus st j a =>
+      N.eqb st 200 && match p with
+                      | Google => true          (* tokeninfo: body not decoded *)
+                      | Okta => j && a          (* introspect: JSON with active:true *)
+                      | Cognito => j            (* userInfo (amazon_cognito.go:128-140,403-420): JSON must decode *)
+                      end
   end.
 
 (* ValidateSessionState: no call at all for an empty access token *)
@@ -294,6 +299,40 @@ Definition sign_in (cfg : config) (p : pkind) (now : Z) (rq : si_request) (c : c
       mkR 200 BodySignInPage None (ao_ops a ++ [OpClear]) (ao_calls a)
   | inl e => error_page (code_for_error e) (ao_ops a) (ao_calls a)
   end.
+
+(* SignIn's dispatch on its own (the same switch as in [sign_in]) *)
+Definition sign_in_dispatch (rq : si_request) (a : auth_out) : response :=
+  match ao_res a with
+  | inr s => proxy_oauth_redirect rq s (ao_ops a) (ao_calls a)
+  | inl ENoCookie => mkR 200 BodySignInPage None (ao_ops a) (ao_calls a)
+  | inl ETokenRevoked | inl ELifetimeExpired | inl EInvalidSession =>
+      mkR 200 BodySignInPage None (ao_ops a ++ [OpClear]) (ao_calls a)
+  | inl e => error_page (code_for_error e) (ao_ops a) (ao_calls a)
+  end.
+
+(* Concurrency. SingleFlightProvider (singleflight_middleware.go:76-114) coalesces concurrent
+   ValidateSessionState calls for the same ACCESS token (the follower receives the leader's
+   verdict: the same outcome as a call of its own, one IdP call fewer) and concurrent
+   RefreshSessionIfNeeded calls for the same REFRESH token: the follower receives the leader's
+   (true, nil) or error, but the closure refreshed the LEADER's session object, so after a
+   successful coalesced refresh the follower continues with its own session UNTOUCHED (old
+   access token, old refresh deadline), saves it and passes it to the validators. [None]: the
+   request cannot be a refresh follower. *)
+Definition auth_authenticate_follower (cfg : config) (now : Z) (c : cookie) : option auth_out :=
+  match load_session c with
+  | inr s =>
+      if negb (lifetime_expired now s) && refresh_expired now s && negb (is_nil (s_rtok s))
+      then Some (if rule_passes cfg (s_email s) then mkAO (inr s) [OpSet s] []
+                 else mkAO (inl ENotAuthorized) [OpSet s] [])
+      else None
+  | inl _ => None
+  end.
+
+Definition sign_in_route_follower (cfg : config) (now : Z) (rq : si_request) (c : cookie)
+  : option response :=
+  if si_get rq && si_client_ok rq && si_redirect_ok rq && si_sig_ok rq
+  then option_map (sign_in_dispatch rq) (auth_authenticate_follower cfg now c)
+  else None.
 
 (* newMux, 112: withMethods(validateClientID(validateRedirectURI(validateSignature(SignIn))), GET).
    ParseForm failures (500/400) are not modelled: the harness sends well-formed queries. *)
